@@ -44,6 +44,19 @@ def follows_unconditionally(body: List[ast.stmt], first: ast.AST, second: ast.AS
     j = top_stmt_in(body, second)
     if i is None or j is None or j <= i:
         return False
+    # `second` must not sit inside a branch / loop / handler of its top-level statement (its test or iterable is fine)
+    top = body[j]
+    if second is top:
+        pass
+    elif isinstance(top, (ast.If, ast.While)):
+        if not any(second is x for x in ast.walk(top.test)):
+            return False
+    elif isinstance(top, ast.For):
+        if not any(second is x for x in ast.walk(top.iter)):
+            return False
+    elif isinstance(top, ast.Try):
+        if not any(second is x for s_ in top.finalbody for x in ast.walk(s_)):
+            return False
     between = body[i:j]
     # the statement containing `first` may itself be compound; escapes inside it count
     return not has_escape(between[1:]) and not (isinstance(body[i], (ast.If, ast.Try, ast.For, ast.While, ast.With))
